@@ -155,6 +155,9 @@ func execOp(line string) {
 	case "swrite":
 		emit(line, safely(func() string { return implSwrite(t) }))
 
+	case "hop":
+		emit(line, safely(func() string { return implHop(t) }))
+
 	case "fix":
 		emit(line, safely(func() string { return implFix(t) }))
 
@@ -397,6 +400,3 @@ func normaliseSigned(b []byte, nominalNs string, key *frame.V2Key, before, after
 	return hx(c), ts
 }
 
-func implFix(t []string) string {
-	return "unsupported"
-}
